@@ -840,7 +840,7 @@ def inverse(repo, rule):
 def _judge_inverse(rule, g, fb, fq):
     x_, m_ = [a.arg for a in fb.args.args][:2]
     pows = [n for n in ast.walk(fb) if isinstance(n, ast.Call) and norm(n.func) in ("pow", "powmod") and len(n.args) == 3]
-    good = [p for p in pows if norm(p.args[0]) == x_ and norm(p.args[1]) in ("%s - 2" % m_, "-1") and norm(p.args[2]) in (m_, "abs(%s)" % m_)]
+    good = [p for p in pows if norm(p.args[0]) in (x_, "%s %% %s" % (x_, m_)) and norm(p.args[1]) in ("%s - 2" % m_, "-1") and norm(p.args[2]) in (m_, "abs(%s)" % m_)]
     builtin = [p for p in good if norm(p.args[1]) == "-1"]
     if builtin:
         # pow(x, -1, m): the interpreter's own extended Euclid; it raises (ValueError) when no inverse exists - no zero result to
@@ -868,6 +868,16 @@ def _judge_inverse(rule, g, fb, fq):
             zero = guarded_
     where = "%s:%s" % (g.relpath, fb.lineno)
     if good and zero:
+        # every power that reaches the result (bound to the result name or returned) is x^(m-2) mod m: an alternative power on
+        # some arm (of -x, of abs(x), another exponent) is the inverse of something else for the arguments that take it
+        feeds = [n.value for n in ast.walk(fb) if (isinstance(n, ast.Assign) and len(n.targets) == 1 and norm(n.targets[0]) in ynames)
+                 or (isinstance(n, ast.Return) and n.value is not None)]
+        stray = [p for v in feeds for p in ast.walk(v) if any(p is q for q in pows) and not any(p is q for q in good)]
+        if stray:
+            rule.violation("%s:%s" % (g.relpath, stray[0].lineno), fq, norm(stray[0]),
+                           "on some path the fallback inverse is `%s`, not %s^(%s-2) mod %s: wrong for the arguments taking that path "
+                           "(negative / unreduced ones included in the property)" % (norm(stray[0]), x_, m_, m_), "gmpy/invert-arm")
+            return
         rule.ok(where, fq, norm(good[0]), "Fermat inverse x^(m-2) mod m (m prime by R-C13-3), zero result raises")
         return
     loops = [n for n in ast.walk(fb) if isinstance(n, ast.While)]
